@@ -402,6 +402,39 @@ static void fixed(void) {
     del(a); del(b);
   }
   del(s);
+  /* %c of 0 (and of 256, -256: the character is the value modulo 256) writes a NUL byte, as C does: the pieces after
+     it land behind it, on a String (whose text then ends at the NUL, its buffer holds the rest) and on a File alike */
+  {
+    static const int64_t NULS[] = { 0, 256, -256, 512 };
+    for (int k = 0; k < 4; k++) {
+      for (int shape = 0; shape < 3; shape++) {
+        static const char* CF[] = { "ab%cde", "%i%c%s", "[%c]%5i|" };
+        char want[64]; int wn = 0;
+        if (shape == 0) { wn = snprintf(want, sizeof want, "ab%cde", 0); }
+        else if (shape == 1) { wn = snprintf(want, sizeof want, "%d%c%s", 7, 0, "tail"); }
+        else { wn = snprintf(want, sizeof want, "[%c]%5d|", 0, 42); }
+        var t = new(String);
+        var f = new(File, $S("c14-nul.tmp"), $S("w+"));
+        int rs = -1, rf = -1;
+        vh.oplen = 0; vh.oplog[0] = 0; vh.nops = 0;
+        vh_op("print_to(\"%s\") with the character %" PRId64 " (NUL)", CF[shape], NULS[k]);
+        if (shape == 0) { VH_CATCH(rs = print_to(t, 0, "ab%cde", $I(NULS[k])), exc); if (!exc) { VH_CATCH(rf = print_to(f, 0, "ab%cde", $I(NULS[k])), exc); } }
+        else if (shape == 1) { VH_CATCH(rs = print_to(t, 0, "%i%c%s", $I(7), $I(NULS[k]), $S("tail")), exc); if (!exc) { VH_CATCH(rf = print_to(f, 0, "%i%c%s", $I(7), $I(NULS[k]), $S("tail")), exc); } }
+        else { VH_CATCH(rs = print_to(t, 0, "[%c]%5i|", $I(NULS[k]), $I(42)), exc); if (!exc) { VH_CATCH(rf = print_to(f, 0, "[%c]%5i|", $I(NULS[k]), $I(42)), exc); } }
+        vh_evals(4);
+        if (exc) { vh_violation("C14:string-sink:raised", "a format with a NUL character raised %s", vh_exc_name(exc)); }
+        else {
+          if (rs != wn || rf != wn) { vh_violation("C14:string-sink:returned-position", "format \"%s\" with a NUL character: returned %d (String) and %d (File) for %d characters", CF[shape], rs, rf, wn); }
+          else if (memcmp(((struct String*)t)->val, want, (size_t)wn + 1) != 0) { vh_violation("C14:string-sink:output-differs", "format \"%s\" with a NUL character: the %d bytes in the String's buffer are not the ones C writes", CF[shape], wn); }
+          char back[64]; memset(back, 0x55, sizeof back);
+          sseek(f, 0, SEEK_SET); size_t got = fread(back, 1, sizeof back, ((struct File*)f)->file);
+          if (got != (size_t)wn || memcmp(back, want, (size_t)wn) != 0) { vh_violation("C14:file-sink:output-differs", "format \"%s\" with a NUL character: the File holds %zu bytes, C writes %d", CF[shape], got, wn); }
+        }
+        sclose(f); del(f); remove("c14-nul.tmp"); del(t);
+        vh_count("formats_writing_a_nul_character");
+      }
+    }
+  }
   vh.oplen = 0; vh.oplog[0] = 0; vh.nops = 0;
   vh_op("piece length sweep 1..640 x 4 shapes x String/File sinks");
   piece_length_sweep();
